@@ -3,7 +3,7 @@
     leaves), on binary64 pairs (leaves that went through cos/sin/exp/sqrtm/qr/expm) and on
     Gaussian rationals (GeneralGate decision rule with the numpy tolerances). *)
 From Qib Require Export Gates.CompModel Base.Inst.
-From Coq Require Import QArith.
+From Coq Require Import QArith Qabs.
 From Coq Require PrimFloat.
 
 Section TreeCheck.
